@@ -462,7 +462,7 @@ def rule_ctor(R):
     cm = roles.conn_methods(f)
     n = 0
     for name, (b, code) in sorted(cm.items()):
-        latch_blocks = [bb for bb, c in code.calls.items() if bb in code.reachable and roles.call_latches(f, c)]
+        latch_blocks = roles.latch_blocks(f, code)
         dead = set()
         for (src, t, fl) in roles.live_true_edges(f, code):
             if fl is not None:
